@@ -77,10 +77,7 @@ Vals(t, w) ==
          ELSE {SeqV(t, <<x, y>>) : x \in Members_(t.es[1], w), y \in Members_(t.es[2], w)}
     [] t.k = "object" ->
          LET D == DOMAIN t.as IN
-         IF D = {} THEN {MapV(t, <<>>)}
-         ELSE IF D = {"a"} THEN {MapV(t, [a |-> x]) : x \in Members_(t.as.a, w)}
-         ELSE IF D = {"b"} THEN {MapV(t, [b |-> x]) : x \in Members_(t.as.b, w)}
-         ELSE {MapV(t, [a |-> x, b |-> y]) : x \in Members_(t.as.a, w), y \in Members_(t.as.b, w)}
+         {MapV(t, f) : f \in {g \in [D -> UNION {Members_(t.as[n], w) : n \in D}] : \A n \in D : g[n] \in Members_(t.as[n], w)}}
     [] OTHER -> {}
 
 \* The value types used as operands
@@ -122,10 +119,19 @@ LenRefs(lo, hi, nn) ==   \* c has a length somewhere in lo..hi (canonical record
   \cup (IF lo >= 1 THEN {[null |-> nn, minLen |-> lo]} ELSE {})
   \cup (IF lo >= 2 THEN {[null |-> nn, minLen |-> lo - 1]} ELSE {})
 
+\* t with one nested position (not the top) replaced by the placeholder
+RECURSIVE DynBelow(_)
+DynBelow(t) ==
+  CASE t.k \in CollKinds -> {[t EXCEPT !.e = TDyn]} \cup {[t EXCEPT !.e = x] : x \in DynBelow(t.e)}
+    [] t.k = "tuple" -> UNION {{[t EXCEPT !.es[i] = TDyn]} \cup {[t EXCEPT !.es[i] = x] : x \in DynBelow(t.es[i])} : i \in 1..Len(t.es)}
+    [] t.k = "object" -> UNION {{[t EXCEPT !.as[n] = TDyn]} \cup {[t EXCEPT !.as[n] = x] : x \in DynBelow(t.as[n])} : n \in DOMAIN t.as}
+    [] OTHER -> {}
 UnkMenu(c) ==
   IF c.st = "unk" THEN {}
   ELSE LET t == c.ty IN
     {Unk(t, [null |-> nn]) : nn \in NullFlags(c)} \cup
+    \* unknown values of a type that still has a placeholder below its top (list(dynamic), object({a=dynamic}), ...)
+    {Unk(g, [null |-> nn]) : g \in DynBelow(t), nn \in NullFlags(c)} \cup
     (IF c.st # "k" THEN {} ELSE
       CASE t.k = "number" -> UNION {{Unk(t, r) : r \in NumRefs(c.v, nn)} : nn \in NullFlags(c)}
         [] t.k = "string" -> UNION {{Unk(t, r) : r \in StrRefs(StrOf(c), nn)} : nn \in NullFlags(c)}
@@ -159,6 +165,9 @@ Weak1(v, lite) ==
                UNION {{SetElem(v, i, w) : w \in Weak1(Elems(v)[i], TRUE)} : i \in 1..Len(Elems(v))}
                \* a set may hold, next to a member, a further member that admits the same value (the two coalesce)
                \cup (IF v.ty.k = "set" THEN UNION {{[v EXCEPT !.v = [l |-> Append(Elems(v), w)]] : w \in Weak1(Elems(v)[i], TRUE)} : i \in 1..Len(Elems(v))} ELSE {})
+               \* two members of a set weakened at the same nested position to the same form (structurally identical members that remain distinct values)
+               \cup (IF v.ty.k = "set" /\ Len(Elems(v)) = 2
+                     THEN {SetElem(SetElem(v, 1, w), 2, w) : w \in {x \in Weak1(Elems(v)[1], TRUE) \cap Weak1(Elems(v)[2], TRUE) : x.st = "k"}} ELSE {})
           [] v.ty.k \in {"map", "object"} ->
                UNION {{SetAttr(v, n, w) : w \in Weak1(Attrs(v)[n], TRUE)} : n \in DOMAIN Attrs(v)}
           [] OTHER -> {})
